@@ -120,7 +120,8 @@ META = {
         "text": "Coq theorems over a transition system of localsubscriber.go with one step per lock operation / atomic access / channel operation, for any number "
                 "of threads, any method sequences and every schedule: no step other than a mutex acquisition or the consumer's receive can block; critical sections "
                 "always progress; the buffer never exceeds its capacity and the consumer sees exactly what was sent; after an overflow (live, replay, queue flush) "
-                "or Disconnect nothing more is sent, the disconnecting thread closes the channel itself, and the consumer observes the end. Tied to the code by "
+                "or Disconnect nothing more is sent, the disconnecting thread closes the channel itself, and the consumer observes the end; at hub level (hub LTS, every schedule, crashes) "
+                "a subscriber whose handler has run its shutdown is not in the index unless the hub was closed, and what a publish does to one subscriber is a function of that subscriber alone. Tied to the code by "
                 "sequential histories around the real capacity and by schedule-steered runs of the instrumented current sources. Partial: wall-clock bounds and "
                 "the handler-level 'no longer listed' / 'others unaffected' parts are exercised by the harness, not yet theorems.",
         "design_ref": "DESIGN.md §5 C13, §3.1",
